@@ -56,7 +56,7 @@ def dcopy(x):
     return x
 
 
-def rw_reorder(spec):
+def rw_reorder(spec, poi="mu"):
     s = dcopy(spec)
     s["channels"].reverse()
     for c in s["channels"]:
@@ -68,7 +68,7 @@ def rw_reorder(spec):
     return s, {}, {}, None
 
 
-def rw_rename(spec):
+def rw_rename(spec, poi="mu"):
     cm = {"c1": "zz_c1", "c2": "aa_c2"}
     sm = {"sig": "x_sig", "bkg": "a_bkg", "b1": "q1", "b2": "a2"}
     mm = {"mu": "zmu", "n1": "b_n1", "h1": "a_h1", "st": "y_st", "ss": "c_ss", "sf": "m_sf"}
@@ -86,7 +86,7 @@ def rw_rename(spec):
     return s, {n: (lambda i, n=n: (inv_m[n], i)) for n in inv_m}, {c: (lambda b, c=c: (inv_c[c], b)) for c in inv_c}, {"poi": mm}
 
 
-def rw_zero(spec):
+def rw_zero(spec, poi="mu"):
     s = dcopy(spec)
     for c in s["channels"]:
         nb = len(c["samples"][0]["data"])
@@ -94,7 +94,7 @@ def rw_zero(spec):
     return s, {}, {}, None
 
 
-def rw_noop(spec):
+def rw_noop(spec, poi="mu"):
     s = dcopy(spec)
     smp = s["channels"][0]["samples"][-1]
     smp["modifiers"].append({"name": "new_ns", "type": "normsys", "data": {"hi": 1.0, "lo": 1.0}})
@@ -102,7 +102,7 @@ def rw_noop(spec):
     return s, {}, {}, {"extra_normal": ["new_ns", "new_hs"]}
 
 
-def rw_split(spec):
+def rw_split(spec, poi="mu"):
     """the first channel (>= 2 bins) becomes two channels: bin 0 and the remaining bins"""
     s = dcopy(spec)
     c = s["channels"][0]
@@ -131,7 +131,7 @@ def rw_split(spec):
     return s, pmap, cmap, None
 
 
-def rw_merge(spec):
+def rw_merge(spec, poi="mu"):
     """samples b1 and b2 of the first channel (identical modifier lists, same normsys data) become one sample"""
     from pyvc.tensor import Sqrt
     s = dcopy(spec)
@@ -161,17 +161,17 @@ def rw_merge(spec):
     return s, {}, {}, {"assume": [z3.And(q > 0, q * q == a * a + b * b) for q, a, b in defs]}
 
 
-def rw_rescale(spec):
+def rw_rescale(spec, poi="mu"):
     k = z3.Real("k_scale")
     s = dcopy(spec)
     for c in s["channels"]:
         for smp in c["samples"]:
-            if any(m["type"] == "normfactor" and m["name"] == "mu" for m in smp["modifiers"]):
+            if any(m["type"] == "normfactor" and m["name"] == poi for m in smp["modifiers"]):
                 smp["data"] = [k * x for x in smp["data"]]
                 for m in smp["modifiers"]:
                     if m["type"] == "histosys":
                         m["data"] = {"hi_data": [k * x for x in m["data"]["hi_data"]], "lo_data": [k * x for x in m["data"]["lo_data"]]}
-    return s, {}, {}, {"scale": ("mu", k)}
+    return s, {}, {}, {"scale": (poi, k)}
 
 
 REWRITES = {"reorder": rw_reorder, "rename": rw_rename, "zero": rw_zero, "noop": rw_noop, "split": rw_split, "merge": rw_merge, "rescale": rw_rescale}
@@ -180,9 +180,10 @@ APPLICABLE = {"two-channels": ["reorder", "rename", "zero", "noop", "split", "re
 
 
 def compose(f, g):
-    def h(spec):
-        s1, p1, c1, e1 = f(spec)
-        s2, p2, c2, e2 = g(s1)
+    def h(spec, poi="mu"):
+        s1, p1, c1, e1 = f(spec, poi)
+        poi1 = ((e1 or {}).get("poi") or {}).get(poi, poi)
+        s2, p2, c2, e2 = g(s1, poi1)
 
         def pm(name):
             def at(i):
@@ -202,8 +203,13 @@ def compose(f, g):
             for k_, v in (e or {}).items():
                 if k_ in ("extra_normal", "assume"):
                     extra.setdefault(k_, []).extend(v)
+                elif k_ == "poi":
+                    continue
                 else:
                     extra[k_] = v
+        poi2 = ((e2 or {}).get("poi") or {}).get(poi1, poi1)
+        if poi2 != poi:
+            extra["poi"] = {poi: poi2}
         # names introduced by g that map onto names renamed by f are resolved through pm / cm lazily
         return s2, _Lazy(pm, names_p), _Lazy(cm, names_c), extra or None
     return h
@@ -231,7 +237,7 @@ def evaluate(eng, spec, poi, pmap, cmap, scale=None):
         for i in range(hi - lo):
             key, ci = pmap[name](i) if name in pmap else (name, i)
             v = P(key, ci)
-            if scale is not None and key == scale[0]:
+            if scale is not None and name == scale[0]:
                 v = v / scale[1]
             theta[lo + i] = v
     data, dkeys = [], []
@@ -307,7 +313,7 @@ def run_pair(T, bname, rname, rewrite):
                 sym.leaves.pop(f"{b}.{fld}")
         for c in sym.positivity():
             eng.assume(c)
-        spec2, pmap, cmap, extra = rewrite(spec)
+        spec2, pmap, cmap, extra = rewrite(spec, skel.get("poi"))
         extra = extra or {}
         poi2 = (extra.get("poi") or {}).get(skel.get("poi"), skel.get("poi"))
         A = evaluate(eng, spec, skel.get("poi"), {}, {})
@@ -475,7 +481,7 @@ def replay(r):
     rw = REWRITES[names[0]] if len(names) == 1 else compose(REWRITES[names[0]], REWRITES[names[1]])
     kval = 2.5
     try:
-        spec2, pmap, cmap, extra = rw(spec)
+        spec2, pmap, cmap, extra = rw(spec, skel.get("poi"))
         extra = extra or {}
         spec2 = _numeric(spec2, kval)
         poi2 = (extra.get("poi") or {}).get(skel.get("poi"), skel.get("poi"))
@@ -493,7 +499,7 @@ def replay(r):
             for i in range(sl.stop - sl.start):
                 key = pmap[n](i) if n in pmap else (n, i)
                 if key in vals:
-                    pb[sl.start + i] = vals[key] / (kval if extra.get("scale") and key[0] == extra["scale"][0] else 1.0)
+                    pb[sl.start + i] = vals[key] / (kval if extra.get("scale") and n == extra["scale"][0] else 1.0)
                 else:
                     pb[sl.start + i] = 0.3
         dvals = {}
